@@ -249,3 +249,52 @@ fn u_parse_string_inplace_n6() {
 fn u_parse_string_inplace_lossy_n6() {
     inplace_body::<6, 70>(true);
 }
+
+/// C09/C02 U-inplace-prefix: the in-place decoder of the DOM parse on `p0 .. p(P-1) \ n " x` +
+/// zero padding, where the P prefix bytes are symbolic (any byte but a backslash) and the tail is
+/// concrete: accept/reject, decoded length, final cursor and every decoded byte equal the
+/// reference decoder's. The prefix decides which of the three tests of the escape-free block
+/// loop fires (closing quote first / raw control byte / break at the backslash); on the "break"
+/// path the real escape loop and the real find-and-move loop run on concrete bytes. In particular
+/// a raw control byte in front of the first escape of the same block must be rejected although
+/// the block also has a backslash (the order of the two tests in the first loop).
+fn inplace_prefix_body<const P: usize>(lossy: bool) {
+    let pre: [u8; P] = kani::any();
+    let mut buf = [0u8; 112];
+    let mut i = 0;
+    while i < P {
+        kani::assume(pre[i] != b'\\');
+        buf[i] = pre[i];
+        i += 1;
+    }
+    buf[P] = b'\\';
+    buf[P + 1] = b'n';
+    buf[P + 2] = b'"';
+    buf[P + 3] = b'x';
+    let orig = buf;
+    let mut out = [0u8; 48];
+    let expect = ref_decode_string(&orig, P + 4, 0, lossy, &mut out);
+    let base = buf.as_mut_ptr();
+    let mut src = base;
+    let r = unsafe { parse_string_inplace(&mut src, lossy) };
+    match (&r, expect) {
+        (Ok(cnt), Some((end, len))) => {
+            assert_eq!(*cnt, len);
+            assert_eq!(unsafe { src.offset_from(base) } as usize, end);
+            let k: usize = kani::any();
+            kani::assume(k < len);
+            assert_eq!(buf[k], out[k]);
+        }
+        (Err(_), None) => {}
+        _ => panic!("parse_string_inplace: accept/reject differs from the reference decoder"),
+    }
+    kani::cover!(matches!(&r, Ok(c) if *c == P + 1));
+    kani::cover!(matches!(&r, Ok(c) if *c + 1 == P));
+    kani::cover!(r.is_err());
+}
+
+#[kani::proof]
+#[kani::stub(core::arch::x86_64::_mm_max_epu8, crate::verif_kmodels::mm_max_epu8)]
+fn u_parse_string_inplace_prefix_p4() {
+    inplace_prefix_body::<4>(false);
+}
